@@ -27,9 +27,16 @@ func (c *decrypt3k3yCmd) Run() error {
 		return err
 	}
 
+	// the 3k3y watermark and key stay in the unencrypted part of the image: strip them like the server does,
+	// otherwise the output is still taken for an encrypted 3k3y image
+	clean, err := fs.NewISO3k3y(imageWrapped)
+	if err != nil {
+		return err
+	}
+
 	fmt.Fprintf(os.Stderr, "Decrypting 3k3y image %s ...\n", c.Image.Name())
 
-	_, err = io.Copy(c.Output, imageWrapped)
+	_, err = io.Copy(c.Output, clean)
 	return err
 }
 
